@@ -699,6 +699,93 @@ async def scenario_initialize(n, mode, model="AppleTV"):
     return {"result": res, "hit": plan.hit, "calls": plan.count, "leaks": leaks}
 
 
+# -- what the tear-down of a streaming session itself has to release -----------------------------------------
+
+async def scenario_protocol_teardown(version, has_event_channel, feedback_started):
+    """StreamClient.close() relies on the protocol object's teardown(): whatever part of the session
+    exists (event channel, feedback / keep-alive task) must be released whichever other part exists."""
+    from pyatv.protocols.raop.protocols import StreamContext, airplayv1, airplayv2
+    state = {"channel_closed": 0, "task_cancelled": 0}
+
+    class Channel:
+        def close(self):
+            state["channel_closed"] += 1
+
+    class Resp:
+        code = 200
+
+    class Rtsp:
+        calls = 0
+
+        async def feedback(self, *a, **k):
+            # the probing call of AirPlay v1 is answered, later ones (from the task) never are
+            Rtsp.calls += 1
+            if Rtsp.calls > 1:
+                await asyncio.sleep(3600)
+            return Resp()
+
+    proto = (airplayv2.AirPlayV2 if version == 2 else airplayv1.AirPlayV1)(StreamContext(), Rtsp())
+    leaks = []
+    task = None
+    if version == 2 and has_event_channel:
+        proto.event_channel = Channel()
+    if feedback_started:
+        await proto.start_feedback()
+        for _ in range(3):
+            await asyncio.sleep(0)
+        task = getattr(proto, "_feedback_task", None) or getattr(proto, "_keep_alive_task", None)
+    proto.teardown()
+    for _ in range(3):
+        await asyncio.sleep(0)
+    if version == 2 and has_event_channel and state["channel_closed"] != 1:
+        leaks.append("event channel of the AirPlay 2 session left open (closed %d times)" % state["channel_closed"])
+    if task is not None and not task.done():
+        leaks.append("feedback / keep-alive task still running after teardown")
+        task.cancel()
+    return {"result": "ok", "leaks": leaks}
+
+
+async def real_web_server_close(workdir):
+    """The REAL StaticFileWebServer (aiohttp, loopback): after close() the port is released AND a
+    connection the device still holds (keep-alive after its download) is closed by the server."""
+    import os
+    from pyatv.support.http import StaticFileWebServer
+    path = os.path.join(workdir, "served.bin")
+    with open(path, "wb") as f:
+        f.write(b"x" * 4096)
+    server = StaticFileWebServer(path, "127.0.0.1")
+    await server.start()
+    leaks = []
+    try:
+        reader, writer = await asyncio.wait_for(asyncio.open_connection("127.0.0.1", server._port), 5)
+        writer.write(b"GET /served.bin HTTP/1.1\r\nHost: x\r\nConnection: keep-alive\r\n\r\n")
+        await writer.drain()
+        got = b""
+        while b"\r\n\r\n" not in got or len(got.split(b"\r\n\r\n", 1)[1]) < 4096:
+            chunk = await asyncio.wait_for(reader.read(65536), 5)
+            if not chunk:
+                break
+            got += chunk
+        if not got.startswith(b"HTTP/1.1 200"):
+            return {"result": "skipped", "leaks": [], "note": "download did not succeed: %r" % got[:40]}
+    finally:
+        await asyncio.wait_for(server.close(), 10)
+    try:
+        rest = await asyncio.wait_for(reader.read(1), 3)
+        if rest != b"":
+            leaks.append("web server still talks on a connection accepted before close()")
+    except asyncio.TimeoutError:
+        leaks.append("a connection accepted before close() is still open after the local web server was closed")
+    try:
+        r2, w2 = await asyncio.wait_for(asyncio.open_connection("127.0.0.1", server._port), 2)
+        w2.close()
+        leaks.append("web server port still accepts connections after close()")
+    except (OSError, asyncio.TimeoutError):
+        pass
+    writer.close()
+    return {"result": "ok", "leaks": leaks}
+
+
 # -- connect ---------------------------------------------------------------------------------------------
 
 async def scenario_connect(subset, fail_at, fail_kind):
@@ -1079,6 +1166,31 @@ def run(ctx):
                 if r["leaks"]:
                     ctx.violation("C18:initialize:leak-at-%s-%d" % (r["hit"], n), "StreamClient.initialize: " + "; ".join(r["leaks"]),
                                   {"op": "initialize", "model": model, "fault": mode, "nth_call": n, "at": r["hit"], "observed": r})
+    for version in (1, 2):
+        for chan in (False, True):
+            for fb in (False, True):
+                r = vloop.run(scenario_protocol_teardown, version, chan, fb)
+                ctx.case(("protocol-teardown", version, chan, fb), nontrivial=chan or fb,
+                         sample={"op": "AirPlayV%d.teardown" % version, "event_channel": chan, "feedback_started": fb, "leaks": r["leaks"]} if (chan and not fb) else None)
+                ctx.count("protocol-teardown")
+                if r["leaks"]:
+                    ctx.violation("C18:teardown:airplayv%d:%s" % (version, "event-channel-left-open" if "event channel" in r["leaks"][0] else "task-left-running"),
+                                  "AirPlayV%d.teardown(): %s" % (version, "; ".join(r["leaks"])),
+                                  {"op": "protocol_teardown", "version": version, "event_channel": chan, "feedback_started": fb, "observed": r})
+    try:
+        import tempfile
+        os.makedirs(os.path.join(common.BUILD, "c18web"), exist_ok=True)
+        loop = asyncio.new_event_loop()
+        try:
+            r = loop.run_until_complete(asyncio.wait_for(real_web_server_close(os.path.join(common.BUILD, "c18web")), 40))
+        finally:
+            loop.close()
+        ctx.case(("web-server-close",), nontrivial=r["result"] == "ok", sample={"op": "StaticFileWebServer.close with a kept-alive connection", "result": r["result"], "leaks": r["leaks"]})
+        ctx.count("web-server-close:" + r["result"])
+        if r["leaks"]:
+            ctx.violation("C18:play_url:web-server-connection-left-open", "local web server: " + "; ".join(r["leaks"]), {"op": "web_server_close", "observed": r})
+    except OSError as ex:
+        ctx.note("real web server scenario skipped (loopback sockets unavailable): %r" % ex)
     protos = [Protocol.MRP, Protocol.DMAP, Protocol.Companion, Protocol.AirPlay, Protocol.RAOP]
     for k in range(1, 6):
         for subset in itertools.combinations(protos, k):
@@ -1115,6 +1227,11 @@ def replay(ctx, path):
         out = vloop.run(scenario_stream_file, r["nth_call"], r["fault"], r["variant"])
     elif op == "play_url":
         out = vloop.run(scenario_play_url, r["nth_call"], r["fault"], r["local"])
+    elif op == "protocol_teardown":
+        out = vloop.run(scenario_protocol_teardown, r["version"], r["event_channel"], r["feedback_started"])
+    elif op == "web_server_close":
+        os.makedirs(os.path.join(common.BUILD, "c18web"), exist_ok=True)
+        out = asyncio.new_event_loop().run_until_complete(real_web_server_close(os.path.join(common.BUILD, "c18web")))
     elif op == "initialize":
         out = vloop.run(scenario_initialize, r["nth_call"], r["fault"], r["model"])
     elif op == "play_url_refused":
